@@ -89,7 +89,7 @@ def _absorb_tail_into_if(fn, known):
                 if not (isinstance(st, ast.If) and st.orelse):
                     continue
                 tail = b[i + 1:]
-                if not tail or len(tail) > 4 or any(isinstance(x, (ast.FunctionDef, ast.AsyncFunctionDef, ast.ClassDef)) for x in tail):
+                if not tail:
                     continue
                 # the block must be the body of the function or end in a return (so that nothing after the tail is affected): any block qualifies,
                 # the statements after an if run after either branch
@@ -109,14 +109,23 @@ def _absorb_tail_into_if(fn, known):
                     names = {n.targets[0].id for n in blk if isinstance(n, ast.Assign) and len(n.targets) == 1 and isinstance(n.targets[0], ast.Name)}
                     assigned_all = names if assigned_all is None else assigned_all & names
                 cands = {t for t in (assigned_all or set()) if t not in known}
-                reads = {n.id for x in tail for n in ast.walk(x) if isinstance(n, ast.Name) and isinstance(n.ctx, ast.Load)}
-                if not (cands & reads):
+                if not cands:
+                    continue
+                # the shortest prefix of the following statements that contains every read of the fresh locals
+                last = -1
+                for j_, x in enumerate(tail):
+                    if any(isinstance(n, ast.Name) and n.id in cands for n in ast.walk(x)):
+                        last = j_
+                if last < 0 or last > 3:
+                    continue
+                tail = tail[:last + 1]
+                if any(isinstance(x, (ast.FunctionDef, ast.AsyncFunctionDef, ast.ClassDef)) for x in tail):
                     continue
                 for blk in branches:
                     if blk and isinstance(blk[-1], (ast.Return, ast.Raise, ast.Break, ast.Continue)):
                         continue
                     blk.extend(copy.deepcopy(tail))
-                del b[i + 1:]
+                del b[i + 1:i + 1 + len(tail)]
                 ast.fix_missing_locations(fn)
                 return 1
     return 0
@@ -852,6 +861,136 @@ def _boolean_returns(fn):
     return k
 
 
+def _namedtuple_fields(module_tree, known_names):
+    """{name: [fields]} for module-level `X = namedtuple("X", [...])` / `collections.namedtuple(...)` definitions the reference tree
+    does not have"""
+    out = {}
+    for st in module_tree.body:
+        if isinstance(st, ast.Assign) and len(st.targets) == 1 and isinstance(st.targets[0], ast.Name) and isinstance(st.value, ast.Call):
+            f = st.value.func
+            if (isinstance(f, ast.Name) and f.id == "namedtuple") or (isinstance(f, ast.Attribute) and f.attr == "namedtuple"):
+                a = st.value.args
+                if len(a) >= 2:
+                    if isinstance(a[1], (ast.List, ast.Tuple)) and all(isinstance(e, ast.Constant) and isinstance(e.value, str) for e in a[1].elts):
+                        out[st.targets[0].id] = [e.value for e in a[1].elts]
+                    elif isinstance(a[1], ast.Constant) and isinstance(a[1].value, str):
+                        out[st.targets[0].id] = a[1].value.replace(",", " ").split()
+    return {k: v for k, v in out.items() if k not in known_names}
+
+
+def _scalar_replace(fn, known, ntfields):
+    """`x = NT(a, b, c)` (NT a private namedtuple introduced after the reference tree, x a fresh local whose reads in the rest of
+    the block are all attribute reads `x.field`, operands not re-bound in between): the reads become the field expressions."""
+    import copy
+    for node in ast.walk(fn):
+        for b in _blocks_of(node):
+            for i, st in enumerate(b):
+                if not (isinstance(st, ast.Assign) and len(st.targets) == 1 and isinstance(st.targets[0], ast.Name) and isinstance(st.value, ast.Call)
+                        and isinstance(st.value.func, ast.Name) and st.value.func.id in ntfields):
+                    continue
+                t = st.targets[0].id
+                if t in known:
+                    continue
+                fields = ntfields[st.value.func.id]
+                call = st.value
+                if any(isinstance(a, ast.Starred) for a in call.args) or any(k.arg is None for k in call.keywords):
+                    continue
+                bound = dict(zip(fields, call.args))
+                for k in call.keywords:
+                    bound[k.arg] = k.value
+                if set(bound) != set(fields) or not all(_is_pure(v) or isinstance(v, (ast.List, ast.Dict)) and not (v.elts if isinstance(v, ast.List) else v.keys) for v in bound.values()):
+                    continue
+                rest = b[i + 1:]
+                loads = [n for s2 in rest for n in ast.walk(s2) if isinstance(n, ast.Name) and n.id == t]
+                attr_reads = [n for s2 in rest for n in ast.walk(s2) if isinstance(n, ast.Attribute) and isinstance(n.value, ast.Name) and n.value.id == t
+                              and isinstance(n.ctx, ast.Load) and n.attr in bound]
+                everywhere = [n for n in ast.walk(fn) if isinstance(n, ast.Name) and n.id == t and isinstance(n.ctx, ast.Load)]
+                if not loads or len(loads) != len(attr_reads):
+                    continue
+                # all reads of this definition are in the rest of its block (other definitions of t own their own rests)
+                others = [n for n in everywhere if n not in loads]
+                if any(True for n in others if not any(n in list(ast.walk(s3)) for node2 in ast.walk(fn) for b2 in _blocks_of(node2) for j2, st2 in enumerate(b2)
+                                                       if isinstance(st2, ast.Assign) and st2 is not st and len(st2.targets) == 1 and isinstance(st2.targets[0], ast.Name)
+                                                       and st2.targets[0].id == t for s3 in b2[j2 + 1:])):
+                    continue
+                operands = {n.id for v in bound.values() for n in ast.walk(v) if isinstance(n, ast.Name)}
+                if any(isinstance(n, ast.Name) and isinstance(n.ctx, (ast.Store, ast.Del)) and n.id in operands for s2 in rest for n in ast.walk(s2)
+                       if not (isinstance(s2, ast.Assign) and n in s2.targets)):
+                    # an operand is re-bound somewhere in the rest: only safe when each field is read before that; keep it simple
+                    continue
+
+                class S(ast.NodeTransformer):
+                    def visit_Attribute(self, n):
+                        self.generic_visit(n)
+                        if isinstance(n.value, ast.Name) and n.value.id == t and isinstance(n.ctx, ast.Load) and n.attr in bound:
+                            return ast.copy_location(copy.deepcopy(bound[n.attr]), n)
+                        return n
+                for s2 in rest:
+                    S().visit(s2)
+                del b[i]
+                if not b:
+                    b.append(ast.copy_location(ast.Pass(), st))
+                ast.fix_missing_locations(fn)
+                return 1
+    return 0
+
+
+def _simplify_trivia(fn):
+    """`x.extend([])` / `x.update({})` dropped; `a or False` -> a; `a or True` -> True (a side-effect free); `a and True` -> a; `x = x` dropped."""
+    k = 0
+
+    class B(ast.NodeTransformer):
+        def visit_BoolOp(self, n):
+            nonlocal k
+            self.generic_visit(n)
+            is_or = isinstance(n.op, ast.Or)
+            vals = list(n.values)
+            if all(_is_pure(v) for v in vals):
+                if any(isinstance(v, ast.Constant) and v.value is (True if is_or else False) for v in vals):
+                    k += 1
+                    return ast.copy_location(ast.Constant(True if is_or else False), n)
+                kept = [v for v in vals if not (isinstance(v, ast.Constant) and v.value is (False if is_or else True))]
+                if len(kept) != len(vals):
+                    k += 1
+                    if not kept:
+                        return ast.copy_location(ast.Constant(False if is_or else True), n)
+                    if len(kept) == 1:
+                        return kept[0]
+                    n.values = kept
+            return n
+    for node in ast.walk(fn):
+        if isinstance(node, (ast.Assign, ast.If, ast.Return)):
+            for fld in ("value", "test"):
+                v = getattr(node, fld, None)
+                if isinstance(v, ast.AST):
+                    setattr(node, fld, B().visit(v))
+    for node in ast.walk(fn):
+        for b in _blocks_of(node):
+            i = 0
+            while i < len(b):
+                st = b[i]
+                drop = False
+                if isinstance(st, ast.Expr) and isinstance(st.value, ast.Call) and isinstance(st.value.func, ast.Attribute) and len(st.value.args) == 1 \
+                        and not st.value.keywords and _is_pure(st.value.func.value):
+                    a = st.value.args[0]
+                    if (st.value.func.attr == "extend" and isinstance(a, (ast.List, ast.Tuple)) and not a.elts) or \
+                            (st.value.func.attr == "update" and isinstance(a, ast.Dict) and not a.keys):
+                        drop = True
+                if isinstance(st, ast.Assign) and len(st.targets) == 1 and isinstance(st.targets[0], ast.Name) and isinstance(st.value, ast.Name) \
+                        and st.value.id == st.targets[0].id:
+                    drop = True
+                if drop:
+                    del b[i]
+                    if not b:
+                        b.append(ast.copy_location(ast.Pass(), st))
+                    k += 1
+                    continue
+                i += 1
+    if k:
+        ast.fix_missing_locations(fn)
+    return k
+
+
 def _find_fn(m, qual):
     if "." in qual:
         cn, mn = qual.split(".", 1)
@@ -974,6 +1113,17 @@ def canonicalise(repo):
         for old, new in _negated_definitions(fn, ent):
             done.append((modname, qual, f"not {old}", new))
 
+    nt = {}
+    for m in repo.modules.values():
+        ref_names = set()
+        try:
+            from .canon_table import KNOWN as _K
+            ref_names = {q for q in _K.get(m.name, [])}
+        except Exception:
+            pass
+        f_ = _namedtuple_fields(m.tree, ref_names)
+        if f_:
+            nt[m.name] = f_
     for (modname, qual), known in LOCALS.items():
         if modname not in repo.modules:
             continue
@@ -985,7 +1135,10 @@ def canonicalise(repo):
         for _ in range(12):
             if ent:
                 rename_pass(modname, qual, fn, ent)
-            k = _absorb_tail_into_if(fn, known) or _eliminate_alias(fn, known) or _inline_new_locals(fn, known - set(), limit=1)
+            k = _absorb_tail_into_if(fn, known) or _scalar_replace(fn, known, nt.get(modname, {})) or _eliminate_alias(fn, known) \
+                or _inline_new_locals(fn, known - set(), limit=1)
+            if k:
+                _simplify_trivia(fn)
             if not k:
                 break
             done.append((modname, qual, "<new local substituted>", k))
